@@ -198,7 +198,7 @@ namespace TAO_PEGTL_NAMESPACE
 
          [[nodiscard]] std::size_t byte() const noexcept
          {
-            return std::size_t( current() - m_begin.data );
+            return m_begin.byte + std::size_t( current() - m_begin.data );
          }
 
          void bump( const std::size_t in_count = 1 ) noexcept
